@@ -351,10 +351,8 @@ def ExtF.worker (x : ExtF) : Option (ExtF × Bytes) :=
     | .error _ => none
   | _, _ => none
 
-/-- `_ExtendedTypeFetcher._new_packet_cb` -/
-def ExtF.onPacket (x : ExtF) (chan : Nat) (data : Bytes) : Except PyErr ExtF :=
-  if ¬ x.active then .ok x else       -- `_close()` removed the callback: the dispatcher no longer calls it
-  if chan ≠ Gen.C03.miscChannel then .ok x else
+/-- the body of `_ExtendedTypeFetcher._new_packet_cb` for a packet that passed the channel and command tests -/
+def ExtF.onExtReply (x : ExtF) (data : Bytes) : Except PyErr ExtF :=
   match unpack (parseFmt! Gen.C03.extIdFmt) ((data.drop 1).take 2) with
   | .error e => .error e
   | .ok (.int v :: _) =>
@@ -379,6 +377,15 @@ def ExtF.onPacket (x : ExtF) (chan : Nat) (data : Bytes) : Except PyErr ExtF :=
           else .ok { x with toc := toc', count := c, reqParam := none, locked := false }
     else .ok x
   | .ok _ => .error .indexError
+
+/-- `_ExtendedTypeFetcher._new_packet_cb`: `pk.channel == MISC_CHANNEL and pk.data[0] == MISC_GET_EXTENDED_TYPE`
+(fix D29: other misc packets, e.g. value-updated notifications, are ignored; `pk.data[0]` of an empty packet raises) -/
+def ExtF.onPacket (x : ExtF) (chan : Nat) (data : Bytes) : Except PyErr ExtF :=
+  if ¬ x.active then .ok x else       -- `_close()` removed the callback: the dispatcher no longer calls it
+  if chan ≠ Gen.C03.miscChannel then .ok x else
+  match data with
+  | [] => .error .indexError
+  | cmd :: _ => if cmd.toNat ≠ Gen.C03.miscGetExtendedType then .ok x else x.onExtReply data
 
 /-- `_ExtendedTypeFetcher._disconnected` (only called while registered): `_req_param = -1`, `_close()` -/
 def ExtF.disconnect (x : ExtF) : ExtF :=
